@@ -81,6 +81,17 @@ fn c18_path_256_segments_refused() {
     let p = Path::new(&path_n(256));
     let r = refuses(|| ser(&p));
     assert!(r.is_ok(), "256-segment path returned bytes with SegCount {:?}", r.err().map(|b| b[1]));
+    // every count above 255 is refused, also those that look small modulo 256; bare, rooted, and as
+    // the name of another object
+    for n in [257usize, 258, 259, 300, 511, 512, 513, 514, 769, 770] {
+        for rooted in [false, true] {
+            let s = if rooted { format!("\\{}", path_n(n)) } else { path_n(n) };
+            let r = catch_unwind(AssertUnwindSafe(|| ser(&Path::new(&s))));
+            if let Ok(b) = r { panic!("{}-segment path (rooted: {}) returned {} bytes starting {:02x?}", n, rooted, b.len(), &b[..4.min(b.len())]); }
+            let r = catch_unwind(AssertUnwindSafe(|| ser(&Name::new(Path::new(&s), &1u8))));
+            if let Ok(b) = r { panic!("Name with a {}-segment path returned {} bytes", n, b.len()); }
+        }
+    }
 }
 #[test]
 fn c18_package_256_elements_refused() {
@@ -199,6 +210,20 @@ fn c12_slit_diagonal_and_mirrored_assignments() {
             check_table(&format!("SLIT n={} after set_distance({},{},{})", n, a, b, v), &img);
             assert_eq!(&img[44..], &model[..], "SLIT n={} matrix after set_distance({},{},{})", n, a, b, v);
             assert_eq!(u64::from_le_bytes(img[36..44].try_into().unwrap()), n as u64);
+        }
+        // large distances written over large distances (old cells totalling 256 and more)
+        let big: [u8; 7] = [200, 20, 255, 254, 128, 129, 10];
+        let mut k = 0usize;
+        for round in 0..3 {
+            for a in 0..n { for b in 0..n {
+                let v = big[(k + round) % big.len()]; k += 1;
+                t.set_distance(a, b, v);
+                model[a + n * b] = v;
+                model[b + n * a] = v;
+                let img = ser(&t);
+                check_table(&format!("SLIT n={} after set_distance({},{},{}) over earlier large values", n, a, b, v), &img);
+                assert_eq!(&img[44..], &model[..], "SLIT n={} matrix after set_distance({},{},{})", n, a, b, v);
+            }}
         }
     }
 }
@@ -340,6 +365,22 @@ fn c18_viot_offsets_beyond_16_bits_refused() {
         let out = le16_at(&b, b.len() - 24 + 16);
         panic!("VIOT of {} bytes returned: node count field {}, last endpoint's output node offset {} (true offset {})", b.len(), n, out, 48 + 4096 * 16);
     }
+    // more nodes than the 16-bit node count can hold, all behind one early IOMMU: refused at some
+    // point, or else the count field still tells the number of nodes that follow
+    let mut t = VIOT::new(*b"FOOBAR", *b"DECAFCOF", 1);
+    let h = t.add_virtio_pci_iommu(VirtIoPciIommu::new(PciDevice::new(0, 0, 1, 0)));
+    let mut added = 1usize;
+    let r = catch_unwind(AssertUnwindSafe(|| {
+        for i in 0..65_600u32 {
+            if i % 2 == 0 { t.add_mmio_endpoint(MmioEndpoint::new(i, 0x1000 + i as u64, &h)); } else { t.add_pci_range(PciRange::new(PciDevice::new(0, 0, 0, 0), PciDevice::new(0, (i % 256) as u8, 31, 7), &h)); }
+            added += 1;
+        }
+    }));
+    if r.is_ok() {
+        let b = ser(&t);
+        check_table("VIOT with more than 65535 nodes", &b);
+        assert_eq!(le16_at(&b, 36) as usize, added, "VIOT of {} bytes returned: node count field {} but {} nodes were added", b.len(), le16_at(&b, 36), added);
+    }
 }
 
 // ---- PPTT
@@ -395,6 +436,24 @@ fn c12_hmat_non_square_matrix_row_major() {
             let base = 32 + 4 * ni + 4 * nt;
             let got: Vec<u16> = (0..ni * nt).map(|k| le16_at(&b, base + 2 * k)).collect();
             assert_eq!(got, model, "HMAT {}x{} after re-assigning ({}, {}) to {:#x}", ni, nt, i, j, v);
+        }
+        // proximity-domain lists: in-range writes land in their slot; an out-of-range index is either
+        // refused or leaves a structure -- and a table holding it -- whose lengths agree with its bytes
+        for i in 0..ni { s.set_initiator_value(i, 0x1000 + i as u32); }
+        for j in 0..nt { s.set_target_value(j, 0x2000 + j as u32); }
+        let b = ser(&s);
+        for i in 0..ni { assert_eq!(le32_at(&b, 32 + 4 * i), 0x1000 + i as u32, "initiator list slot {}", i); }
+        for j in 0..nt { assert_eq!(le32_at(&b, 32 + 4 * ni + 4 * j), 0x2000 + j as u32, "target list slot {}", j); }
+        for (which, idx) in [(0, ni), (0, ni + 2), (1, nt), (1, nt + 3)] {
+            let mut s2 = SystemLocality::new(LocalityType::Memory, dt, MinTransferSize::SizeByteAligned, 100, ni, nt);
+            let r = catch_unwind(AssertUnwindSafe(|| { if which == 0 { s2.set_initiator_value(idx, 7) } else { s2.set_target_value(idx, 7) } }));
+            if r.is_ok() {
+                let b = ser(&s2);
+                assert_eq!(le32_at(&b, 4) as usize, b.len(), "HMAT {}x{}: out-of-range list index {} accepted, structure Length {} but {} bytes", ni, nt, idx, le32_at(&b, 4), b.len());
+                let mut t = HMAT::new(*b"FOOBAR", *b"DECAFCOF", 1);
+                t.add_system_locality(s2);
+                check_table("HMAT holding a structure whose list index was out of range", &ser(&t));
+            }
         }
     }
 }
@@ -854,6 +913,14 @@ fn c06_operator_opcodes() {
 /// follow in order, the last one ending the object
 #[test]
 fn c06_containers_names_and_wide_constants() {
+    // a field name is the bare NameString; a named object is NameOp + NameString + value
+    assert_eq!(ser(&Name::new_field_name("FLD0")), b"FLD0".to_vec(), "field name");
+    assert_eq!(ser(&Name::new("OBJ0".into(), &0x1234u16)), [&[0x08u8][..], b"OBJ0", &[0x0b, 0x34, 0x12]].concat(), "named object");
+    {
+        let (buf, idx, f) = (Path::new("BUF0"), 4u8, Name::new_field_name("FLD1"));
+        assert_eq!(ser(&CreateDWordField::new(&f, &buf, &idx)), [&[0x8au8][..], b"BUF0", &[0x0a, 4], b"FLD1"].concat(), "CreateDWordField(BUF0, 4, FLD1)");
+        assert_eq!(ser(&CreateQWordField::new(&f, &buf, &idx)), [&[0x8fu8][..], b"BUF0", &[0x0a, 4], b"FLD1"].concat(), "CreateQWordField(BUF0, 4, FLD1)");
+    }
     // containers with no children are still emitted: opcode and a PkgLength counting itself
     assert_eq!(ser(&Else::new(vec![])), vec![0xa1, 0x01], "empty Else");
     assert_eq!(ser(&If::new(&ONE, vec![])), vec![0xa0, 0x02, 0x01], "If with an empty body");
@@ -992,6 +1059,41 @@ fn c15_package_builder_equals_package() {
 // ---- C10: resource descriptors and templates
 #[test]
 fn c10_resource_templates_reference() {
+    // payloads of every size around the one-byte / two-byte BufferSize boundary (odd sizes through a
+    // 9-byte Interrupt descriptor)
+    for n in 20..=36usize {
+        for m in 0..3usize {
+            let ios: Vec<IO> = (0..n).map(|i| IO::new(0x100 + i as u16, 0x3f8, 8, 4)).collect();
+            let mems: Vec<Memory32Fixed> = (0..m).map(|i| Memory32Fixed::new(true, 0x8000_0000 + i as u32, 0x1000)).collect();
+            let irq = Interrupt::new(true, false, false, true, 5);
+            let mut kids: Vec<&dyn Aml> = ios.iter().map(|e| e as &dyn Aml).collect();
+            kids.push(&irq);
+            for x in &mems { kids.push(x); }
+            let b = ser(&ResourceTemplate::new(kids));
+            let payload_len = 8 * n + 9 + 12 * m + 2;
+            assert_eq!(b[0], 0x11);
+            let (len, w) = pkg_decode(&b[1..]);
+            assert_eq!(len, b.len() - 1, "template with a {}-byte payload: PkgLength", payload_len);
+            let size = ref_int(payload_len as u64);
+            assert_eq!(&b[1 + w..1 + w + size.len()], &size[..], "template with a {}-byte payload: BufferSize", payload_len);
+            assert_eq!(b.len() - (1 + w + size.len()), payload_len, "template with a {}-byte payload: bytes after BufferSize", payload_len);
+            assert_eq!(&b[b.len() - 2..], &[0x79, 0x00], "end tag");
+        }
+    }
+    // large templates keep every payload byte, trailing zeros included
+    for n in [10usize, 21, 22, 40] {
+        let ds: Vec<AddressSpace<u32>> = (0..n).map(|_| AddressSpace::new_memory(AddressSpaceCacheable::NotCacheable, true, 0u32, 0u32, None)).collect();
+        let kids: Vec<&dyn Aml> = ds.iter().map(|e| e as &dyn Aml).collect();
+        let b = ser(&ResourceTemplate::new(kids));
+        let one = ser(&ds[0]).len();
+        let payload_len = one * n + 2;
+        let (len, w) = pkg_decode(&b[1..]);
+        assert_eq!(len, b.len() - 1, "template of {} DWord descriptors: PkgLength", n);
+        let size = ref_int(payload_len as u64);
+        assert_eq!(&b[1 + w..1 + w + size.len()], &size[..], "template of {} DWord descriptors: BufferSize", n);
+        assert_eq!(b.len() - (1 + w + size.len()), payload_len, "template of {} DWord descriptors: payload present in full", n);
+        assert_eq!(&b[b.len() - 2..], &[0x79, 0x00], "end tag with its checksum byte");
+    }
     for n in (0..=40usize).chain([5461, 5462, 7281, 7282]).chain(8186..=8194) {
         let ios: Vec<IO> = (0..n).map(|i| IO::new(0x100 + i as u16, 0x3f8 + 257 * (i as u16 % 7), 8, 4)).collect();
         let mems: Vec<Memory32Fixed> = (0..n % 3).map(|i| Memory32Fixed::new(i % 2 == 0, 0x8000_0000 + i as u32, 0xffff_fff0)).collect();
@@ -1233,6 +1335,22 @@ fn c13_generic_table_vector_model() {
             assert_eq!(ser(&t), m, "serialising the table delivers the whole vector, whatever its Length field says");
             { let mut bo = ByteOnly(Vec::new()); t.to_aml_bytes(&mut bo); assert_eq!(bo.0, m, "byte-only sink"); }
             assert_eq!(bsum(t.as_slice()), 0, "Sdt sums to 0 after byte writes over the header");
+            // the Length field written ahead of time, then an append that brings the table to exactly that size
+            for d in [&[1u8, 2, 3, 4][..], &[0xffu8][..], &[9u8, 8, 7][..]] {
+                let ahead = (m.len() + d.len()) as u32;
+                t.write_u32(4, ahead); m[4..8].copy_from_slice(&ahead.to_le_bytes()); model_fix(&mut m);
+                t.append_slice(d); m.extend_from_slice(d); let l = m.len() as u32; m[4..8].copy_from_slice(&l.to_le_bytes()); model_fix(&mut m);
+                assert_eq!(t.as_slice(), &m[..], "Length written ahead ({}), then {} bytes appended", ahead, d.len());
+                assert_eq!(bsum(t.as_slice()), 0, "Sdt sums to 0 after Length was written ahead and the append caught up");
+                let ahead = (m.len() + 1) as u32;
+                t.write_u32(4, ahead); m[4..8].copy_from_slice(&ahead.to_le_bytes()); model_fix(&mut m);
+                t.append(0x33u8); m.push(0x33); let l = m.len() as u32; m[4..8].copy_from_slice(&l.to_le_bytes()); model_fix(&mut m);
+                assert_eq!(t.as_slice(), &m[..], "Length written ahead, then a typed append");
+                // rewriting bytes with the values they already hold changes nothing
+                let keep = m[0..8].to_vec();
+                t.write_u64(0, u64::from_le_bytes(keep.clone().try_into().unwrap())); model_fix(&mut m);
+                assert_eq!(t.as_slice(), &m[..], "idempotent write over the header");
+            }
             t.append_slice(&[]); let l = m.len() as u32; m[4..8].copy_from_slice(&l.to_le_bytes()); model_fix(&mut m);
             assert_eq!(t.as_slice(), &m[..], "empty append restores Length");
             step += 1;
@@ -1304,6 +1422,15 @@ fn c14_raw_form_equals_serialised() {
         assert_eq!(g, vec![13, 24, 0, 0, 4, 3, 2, 1, 0x18, 0x17, 0x16, 0x15, 0x14, 0x13, 0x12, 0x11, 1, 0, 0, 0, 0x22, 0x21, 0x32, 0x31], "GIC MSI frame layout (ACPI 6.5 table 5.41)");
     }
     same!("SRAT RINTC affinity", srat::RintcAffinity::new(*b"\x01\x02\x03\x04", 0x0a0b_0c0d));
+    {
+        use acpi_tables::tpm2::TpmServer1_2;
+        same!("TCPA server (new)", TpmServer1_2::new(OEM, TBL, 1));
+        same!("TCPA server (bus_is_pnp last)", TpmServer1_2::new(OEM, TBL, 1).log_area(1, 2).bus_is_pnp());
+        same!("TCPA server (active_low last)", TpmServer1_2::new(OEM, TBL, 1).bus_is_pnp().active_low());
+        same!("TCPA server (edge_triggered last)", TpmServer1_2::new(OEM, TBL, 1).sci_gpe(3).edge_triggered());
+        same!("TCPA server (pci_sbdf last)", TpmServer1_2::new(OEM, TBL, 1).gsi(4).pci_sbdf(1, 2, 3, 4));
+        same!("TCPA server (log_area last)", TpmServer1_2::new(OEM, TBL, 1).bus_is_pnp().log_area(5, 6));
+    }
 }
 struct ByteOnly(Vec<u8>);
 impl AmlSink for ByteOnly { fn byte(&mut self, b: u8) { self.0.push(b) } }
@@ -1534,7 +1661,7 @@ fn c01_history_tpm2() {
     check_table("TPM2(log area set twice)", &after);
     if r.is_err() { assert_eq!(after, before, "a refused set_log_area changed the table"); }
     for class in [tpm2::PlatformClass::Client, tpm2::PlatformClass::Server] {
-        for sm in [tpm2::StartMethod::LegacyUse, tpm2::StartMethod::AcpiStart, tpm2::StartMethod::Mmio, tpm2::StartMethod::Crb, tpm2::StartMethod::CrbAndAcpiStart] {
+        for sm in [tpm2::StartMethod::LegacyUse, tpm2::StartMethod::AcpiStart, tpm2::StartMethod::Mmio, tpm2::StartMethod::Crb, tpm2::StartMethod::CrbAndAcpiStart, tpm2::StartMethod::CrbAndSmcHvc, tpm2::StartMethod::I2cFifo] {
             let mut t = tpm2::Tpm2::new(OEM, TBL, 0xffff_ffff, class, u64::MAX, sm);
             check_table("TPM2(new, every class/start method)", &ser(&t));
             t.set_log_area(u32::MAX, u64::MAX);
@@ -1553,6 +1680,16 @@ fn c01_history_fixed() {
     check_table("BERT", &ser(&bert::BERT::new(OEM, TBL, 1, 0x1000, u64::MAX)));
     let f = fadt::FADTBuilder::new(OEM, TBL, 1).dsdt_64(0xabcd_0000_1111).firmware_ctrl_32(7).flag(fadt::Flags::HwReducedAcpi).preferred_pm_profile(fadt::PmProfile::Tablet).finalize();
     check_table("FADT", &ser(&f));
+    // the builder's fields are public: whatever they hold when finalize() runs, the table sums to 0
+    for preset in [0x01u8, 0x5a, 0x80, 0xff] {
+        let mut b = fadt::FADTBuilder::new(OEM, TBL, 0x4237_5689).dsdt_64(0x8000_0000_0000).flag(fadt::Flags::HwReducedAcpi);
+        b.checksum = preset;
+        check_table("FADT (checksum byte preset before finalize)", &ser(&b.finalize()));
+        let mut b = fadt::FADTBuilder::new(OEM, TBL, 1);
+        b.checksum = preset;
+        let b = b.preferred_pm_profile(fadt::PmProfile::Mobile);
+        check_table("FADT (preset, then more builder calls)", &ser(&b.finalize()));
+    }
     let r = ser(&rsdp::Rsdp::new(OEM, 0x1234_5678_9abc));
     assert_eq!(r.len(), 36); assert_eq!(bsum(&r[..20]), 0, "RSDP first 20 bytes"); assert_eq!(bsum(&r), 0, "RSDP all 36 bytes"); assert_eq!(le32_at(&r, 20), 36);
     assert_eq!(le32_at(&ser(&facs::FACS::new()), 4), 64);
@@ -1684,6 +1821,24 @@ fn c03_table_bodies_are_tiled() {
 
 #[test]
 fn c04_entries_decode_to_the_callers_values() {
+    {
+        // generic address structures: space id, bit width and access size follow the caller's register type
+        use acpi_tables::sdt::GenericAddress as GA;
+        use zerocopy::IntoBytes;
+        fn want(space: u8, bits: u8, acc: u8, addr: u64) -> Vec<u8> { let mut v = vec![space, bits, 0, acc]; v.extend_from_slice(&addr.to_le_bytes()); v }
+        for a in [0u16, 0xcf8, 0xffff] {
+            assert_eq!(GA::io_port_address::<u8>(a).as_bytes(), &want(1, 8, 1, a as u64)[..], "io_port_address::<u8>({:#x})", a);
+            assert_eq!(GA::io_port_address::<u16>(a).as_bytes(), &want(1, 16, 2, a as u64)[..], "io_port_address::<u16>({:#x})", a);
+            assert_eq!(GA::io_port_address::<u32>(a).as_bytes(), &want(1, 32, 3, a as u64)[..], "io_port_address::<u32>({:#x})", a);
+            assert_eq!(GA::io_port_address::<u64>(a).as_bytes(), &want(1, 64, 4, a as u64)[..], "io_port_address::<u64>({:#x})", a);
+        }
+        for a in [0u64, 0xfed4_0000, u64::MAX] {
+            assert_eq!(GA::mmio_address::<u8>(a).as_bytes(), &want(0, 8, 1, a)[..], "mmio_address::<u8>({:#x})", a);
+            assert_eq!(GA::mmio_address::<u16>(a).as_bytes(), &want(0, 16, 2, a)[..], "mmio_address::<u16>({:#x})", a);
+            assert_eq!(GA::mmio_address::<u32>(a).as_bytes(), &want(0, 32, 3, a)[..], "mmio_address::<u32>({:#x})", a);
+            assert_eq!(GA::mmio_address::<u64>(a).as_bytes(), &want(0, 64, 4, a)[..], "mmio_address::<u64>({:#x})", a);
+        }
+    }
     use acpi_tables::*;
     for &a in &U64S { for &l in &[1u64, u64::MAX, 0x8000_0000_0000_0001] { for &pd in &U32S {
         let b = ser(&srat::MemoryAffinity::new(pd, a, l).hotpluggable());
@@ -1928,6 +2083,26 @@ fn c05_handles_are_offsets_of_their_nodes() {
 #[test]
 fn c11_option_builders_are_independent() {
     use acpi_tables::*;
+    // FADT preferred PM profile: the byte holds exactly the selected profile's code
+    for (p, code) in [(fadt::PmProfile::Unspecified, 0u8), (fadt::PmProfile::Desktop, 1), (fadt::PmProfile::Mobile, 2), (fadt::PmProfile::Workstation, 3), (fadt::PmProfile::EnterpriseServer, 4),
+                      (fadt::PmProfile::SohoServer, 5), (fadt::PmProfile::AppliancePc, 6), (fadt::PmProfile::PerformanceServer, 7), (fadt::PmProfile::Tablet, 8)] {
+        let b = ser(&fadt::FADTBuilder::new(OEM, TBL, 1).preferred_pm_profile(p).finalize());
+        assert_eq!(b[45], code, "FADT preferred PM profile code");
+        let b = ser(&fadt::FADTBuilder::new(OEM, TBL, 1).preferred_pm_profile(fadt::PmProfile::Desktop).flag(fadt::Flags::HwReducedAcpi).preferred_pm_profile(p).finalize());
+        assert_eq!(b[45], code, "FADT preferred PM profile code (selected last)");
+    }
+    // SRAT RINTC affinity: the enabled flag and the proximity domain are independent, in either order
+    {
+        let a = ser(&srat::RintcAffinity::new([1, 2, 3, 4], 9).enabled().proximity_domain(0x1122_3344));
+        let b = ser(&srat::RintcAffinity::new([1, 2, 3, 4], 9).proximity_domain(0x1122_3344).enabled());
+        assert_eq!(a, b, "RINTC affinity: enabled() then proximity_domain() vs the reverse order");
+        let c = ser(&srat::RintcAffinity::new([1, 2, 3, 4], 9).proximity_domain(0x1122_3344));
+        let d: Vec<usize> = (0..a.len()).filter(|i| a[*i] != c[*i]).collect();
+        assert_eq!(d.len(), 1, "enabled() changes exactly one byte (changed: {:?})", d);
+        assert_eq!(a[d[0]] ^ c[d[0]], 1, "enabled() sets bit 0 of the flags");
+        let e = ser(&srat::RintcAffinity::new([1, 2, 3, 4], 9).enabled().proximity_domain(5).proximity_domain(0x1122_3344).enabled());
+        assert_eq!(e, a, "repeated option calls");
+    }
     // SRAT memory affinity: every subset, two orders, with repetition
     for mask in 0..8u32 {
         let apply = |order: &[u32]| { let mut m = srat::MemoryAffinity::new(1, 2, 3); for o in order { if mask & (1 << o) != 0 { m = match o { 0 => m.enabled(), 1 => m.hotpluggable(), _ => m.nonvolatile() }; } } le32_at(&ser(&m), 28) };
